@@ -60,18 +60,20 @@ MUTATOR_ARGS = {"__init__": ([9],), "append": (9,), "extend": ([9],), "insert": 
 
 
 def extract_frozenlist(repo):
-    """[(method, rejects)] for every method name the class `frozenlist` overrides (AST: names only, whatever the
-    bodies look like); `rejects` is BEHAVIOUR: calling it on a real frozenlist instance of the tree under check
+    """[(method, rejects)] for every `list` method the class `frozenlist` overrides (its own namespace at run time;
+    the AST only gives the base classes); `rejects` is BEHAVIOUR: calling it on a real frozenlist instance of the tree under check
     raises GuppyComptimeError and leaves the contents unchanged."""
     from guppylang_internals.error import GuppyComptimeError
     from guppylang_internals.tracing.frozenlist import frozenlist
 
     p = os.path.join(repo, "guppylang-internals", "src", "guppylang_internals", "tracing", "frozenlist.py")
-    names, bases = [], []
+    bases = []
     for n in ast.parse(open(p).read()).body:
         if isinstance(n, ast.ClassDef) and n.name == "frozenlist":
             bases = [ast.unparse(b) for b in n.bases]
-            names = [m.name for m in n.body if isinstance(m, ast.FunctionDef)]
+    # the names the class overrides, however they were installed (method definitions, `setattr` from a table, …):
+    # the class's own namespace, restricted to attributes `list` has too
+    names = [k for k, v in vars(frozenlist).items() if callable(v) and hasattr(list, k) and k not in ("__new__", "__class_getitem__")]
     rows = []
     for name in sorted(set(names)):
         xs = frozenlist([3, 1, 2])
@@ -86,10 +88,43 @@ def extract_frozenlist(repo):
     return rows, bases
 
 
+def extract_frozen_rule(repo):
+    """trace_function: the `frozen=` argument of the `unpack_guppy_object` call on the function inputs (AST), evaluated
+    for the three ways an argument can be passed: owned (`@owned`), borrowed (inout), by value (copyable: no flag).
+    -> {mode: bool} ; unrecognised -> None"""
+    from guppylang_internals.tys.ty import InputFlags
+
+    p = os.path.join(repo, "guppylang-internals", "src", "guppylang_internals", "tracing", "function.py")
+    tree = ast.parse(open(p).read())
+    expr = None
+    for n in ast.walk(tree):
+        if isinstance(n, ast.FunctionDef) and n.name == "trace_function":
+            for c in ast.walk(n):
+                if isinstance(c, ast.Call) and ast.unparse(c.func) == "unpack_guppy_object":
+                    for kw in c.keywords:
+                        if kw.arg == "frozen":
+                            expr = kw.value
+    if expr is None:
+        return None
+
+    class Inp:
+        def __init__(self, flags):
+            self.flags = flags
+
+    out = {}
+    for mode, flags in (("owned", InputFlags.Owned), ("borrowed", InputFlags.Inout), ("byValue", InputFlags.NoFlags)):
+        try:
+            out[mode] = bool(eval(compile(ast.Expression(expr), "<frozen-rule>", "eval"), {"InputFlags": InputFlags, "inp": Inp(flags)}))
+        except Exception:  # noqa: BLE001
+            return None
+    return out
+
+
 def translate(ctx):
     import bootstrap
 
     rows, bases = extract_frozenlist(bootstrap.REPO)
+    rule = extract_frozen_rule(bootstrap.REPO)
     txt = "\n".join([
         "/-! GENERATED on every run by harness/props/c22.py (translate) from tracing/frozenlist.py. Do not edit. -/",
         "namespace GuppyVerif.TraceOwn",
@@ -101,6 +136,14 @@ def translate(ctx):
         "def frozenOverrides : List (String × Bool) := [",
         ",\n".join(f'  ("{n}", {"true" if r else "false"})' for n, r in rows),
         "]",
+        "",
+        "/-- how an argument is passed to a comptime function -/",
+        "inductive ArgMode where | owned | borrowed | byValue deriving DecidableEq, Repr",
+        "",
+        "/-- `trace_function`: the `frozen=` expression of the inputs' `unpack_guppy_object` call, evaluated per mode;",
+        "    `none`: the expression was not found / could not be evaluated -/",
+        "def frozenRule : ArgMode → Option Bool",
+        *([f"  | .{m} => some {'true' if v else 'false'}" for m, v in rule.items()] if rule else ["  | _ => none"]),
         "",
         "end GuppyVerif.TraceOwn",
         "",
@@ -497,6 +540,17 @@ def nested_cases(ctx):
     if ctx.quick:
         deep = [g for g in grid if len(g[1]) >= 1]
         grid = rng.sample(deep, min(45, len(deep))) + rng.sample(grid, 10)
+    # arguments passed BY VALUE (every field copyable: neither `@owned` nor borrowed): structs / tuples of ints to
+    # depth 3, every struct object inside; always all of them (also in the quick tier)
+    byval = []
+    sub = [("L",), ("S", ("L",), ("L",)), ("T", ("L",), ("L",)), ("T", ("S", ("L",), ("L",)), ("L",))]
+    for k in ("S", "T"):
+        for a in sub:
+            for b in sub[:3]:
+                sh = (k, a, b)
+                byval += [(sh, path) for path in container_paths(sh)]
+    byval += [(("S", ("L",), ("L",)), ())]
+    grid = grid + [g for g in byval if g not in grid]
     cases = []
     for sh, path in grid:
         for owned in (True, False):
@@ -508,9 +562,9 @@ def nested_cases(ctx):
             if target[0] == "A":
                 muts = LIST_MUTATORS if owned else SAFE_LIST_MUTATORS
             else:
-                muts = STRUCT_MUTATORS
+                muts = STRUCT_MUTATORS + (["{x}.a = 7", "{x}.a += 1"] if target[1] == ("L",) else [])
             mut = rng.choice(muts) if ctx.quick or not owned else None
-            for mtxt in ([mut] if mut else muts[:4] + [rng.choice(muts[4:])] if target[0] == "A" else muts[:1]):
+            for mtxt in ([mut] if mut else muts[:4] + [rng.choice(muts[4:])] if target[0] == "A" else muts):
                 ann = T + (" @owned" if owned and has_array(sh) else "")
                 src = ("".join(tg.classes) + f"@guppy.comptime\ndef f(v: {ann}) -> None:\n    " + mtxt.format(x=x) + "\n")
                 cases.append((src, f"unpack {int(owned)} {shape_tokens(sh)} {' '.join(path)}".strip(), len(path)))
